@@ -103,6 +103,42 @@ def install_linalg(vm):
         new = [A.add(o, A.mul(alpha, p)) if acc.name == 'Add' else A.mul(alpha, p) for o, p in zip(old, prod)]
         vm.write_at(m, dst.cell, list(dst.path), Seq(new)); return ret(m, UNIT)
     vm.add_model(r'^faer::linalg::matmul::matmul::<', matmul)
+    # ---- rows of a matrix (used by the low-rank estimator's rescale_points): a row is ('MatRow', matrix ref, index)
+    def mat_ref(vm, m, x):
+        v = x
+        while isinstance(v, Ref):
+            inner = vm.read_at(m, v.cell, v.path)
+            if isinstance(inner, Ref): v = inner
+            else: break
+        return v
+    def shape(vm, m, c, a):
+        cols, t = matv(vm, m, a[0]); nr = len(cols[0]) if cols else (getattr(vm, 'linalg_nrows', 0) or 0)
+        return ret(m, Struct((nr, len(cols))) if not t else Struct((len(cols), nr)))
+    vm.add_model(r'^mat::mat(own|ref|mut)::<impl faer::mat::generic::Mat<.*>>::shape$', shape)
+    vm.add_model(r'^mat::mat(own|ref|mut)::<impl faer::mat::generic::Mat<.*>>::nrows$', lambda vm, m, c, a: ret(m, shape(vm, m, c, a)[0][2].f[0]))
+    def row(vm, m, c, a): return ret(m, Struct((mat_ref(vm, m, a[0]), a[1]), 'MatRow'))
+    vm.add_model(r'^mat::mat(own|ref|mut)::<impl faer::mat::generic::Mat<.*>>::row(_mut)?$', row)
+    def row_refs(vm, m, r):
+        r = deref_val(vm, m, r) if isinstance(r, Ref) else r
+        mr, i = r.f[0], r.f[1]; mat = vm.read_at(m, mr.cell, mr.path)
+        if not isinstance(i, int): raise VMError('symbolic row index')
+        return [Ref(mr.cell, tuple(mr.path) + (('i', j), ('i', i))) for j in range(len(mat.items))]
+    def row_sum(vm, m, c, a):
+        acc = A.const(0.0)
+        for r in row_refs(vm, m, a[0]): acc = A.add(acc, vm.read_at(m, r.cell, r.path))
+        return ret(m, acc)
+    vm.add_model(r'^row::row(own|ref|mut)::<impl faer::row::generic::Row<.*>>::sum$', row_sum)
+    vm.add_model(r'^row::row(own|ref|mut)::<impl faer::row::generic::Row<.*>>::iter(_mut)?$', lambda vm, m, c, a: ret(m, Iter(row_refs(vm, m, a[0]))))
+    def col_index(vm, m, c, a):
+        r = a[0]
+        while True:
+            inner = vm.read_at(m, r.cell, r.path)
+            if isinstance(inner, Ref): r = inner
+            else: break
+        if not isinstance(a[1], int): raise VMError('symbolic column index')
+        if a[1] >= len(inner.items): return [(m, 'panic', ('index out of bounds (Col)', a[1], None))]
+        return ret(m, Ref(r.cell, tuple(r.path) + (('i', a[1]),)))
+    vm.add_model(r'^<faer::col::generic::Col<.*> as (std::ops::)?Index(Mut)?<usize>>::index(_mut)?$', col_index)
     vm.add_model(r'^col::col(own|ref|mut)::<impl faer::col::generic::Col<.*>>::iter_mut$', lambda vm, m, c, a: ret(m, Iter(slice_refs(vm, m, a[0]))))
     vm.add_model(r'^col::col(own|ref|mut)::<impl faer::col::generic::Col<.*>>::iter$', lambda vm, m, c, a: ret(m, Iter(slice_refs(vm, m, a[0]))))
     def copy_from(vm, m, c, a):
